@@ -89,6 +89,7 @@ func c02Triggers(d *Defs, c c02Combo) []string {
 				set["enumS.single"] = true
 			}
 		case SArray:
+			c02NestedCollection(d, s, set)
 			if e := d.c02Resolve(s.Elem); e != nil && !c02IsScalarKind(e.Kind) {
 				hasArrayOfNonScalar = true
 				if e.Kind == SDict {
@@ -109,6 +110,7 @@ func c02Triggers(d *Defs, c c02Combo) []string {
 				set["ref.to.single.enumS"] = true
 			}
 		case SDict:
+			c02NestedCollection(d, s, set)
 			if e := d.c02Resolve(s.Elem); e != nil && !c02IsScalarKind(e.Kind) {
 				hasDictOfNonScalar = true
 			}
@@ -179,8 +181,12 @@ func c02Triggers(d *Defs, c c02Combo) []string {
 	if hasUnion {
 		set["union"] = true
 	}
-	if c.Builders && set["array.of.dict.of.struct"] {
-		set["builders+array.of.dict.of.struct"] = true
+	if c.Builders {
+		for _, k := range []string{"array.of.dict.of.struct", "array.of.array.of.struct", "dict.of.dict.of.struct", "dict.of.array.of.struct"} {
+			if set[k] {
+				set["builders+"+k] = true
+			}
+		}
 	}
 	out := make([]string, 0, len(set))
 	for k := range set {
@@ -188,4 +194,26 @@ func c02Triggers(d *Defs, c c02Combo) []string {
 	}
 	sort.Strings(out)
 	return out
+}
+
+// c02NestedCollection tags a collection of collections whose innermost element is (a reference to) a
+// struct: `<outer>.of.<inner>.of.struct` — builder options on these take collections of builders.
+func c02NestedCollection(d *Defs, s *Src, set map[string]bool) {
+	kind := func(k SrcKind) string {
+		if k == SArray {
+			return "array"
+		}
+		return "dict"
+	}
+	inner := d.c02Resolve(s.Elem)
+	if inner == nil || (inner.Kind != SArray && inner.Kind != SDict) {
+		return
+	}
+	leaf := d.c02Resolve(inner.Elem)
+	for i := 0; i < 4 && leaf != nil && (leaf.Kind == SArray || leaf.Kind == SDict); i++ {
+		leaf = d.c02Resolve(leaf.Elem)
+	}
+	if leaf != nil && (leaf.Kind == SStruct || leaf.Kind == SOneOfStructs) {
+		set[kind(s.Kind)+".of."+kind(inner.Kind)+".of.struct"] = true
+	}
 }
